@@ -45,18 +45,18 @@ Variable fuel : R -> nat.
 Variable n_along : vec -> R.
 Variable s : beam.
 Variable e : R.
-Hypothesis He : 0 <= e <= PI / 2.
+Hypothesis He : Rabs e <= PI / 2.
 
 Let nm := nm_real sd fuel.
 Let star := theta_star nm n_along s e.
 Let cost := snell_cost_gen n_along s e.
 
 Lemma seed_in_range : in_range snell_lower_gen snell_upper_gen (snell_seed0_gen e) = true.
-Proof. apply in_range_spec. unfold snell_lower_gen, snell_upper_gen, snell_seed0_gen. rewrite div1. exact He. Qed.
+Proof. apply in_range_spec. unfold snell_lower_gen, snell_upper_gen, snell_seed0_gen. rewrite div1. split; [apply Rabs_pos | exact He]. Qed.
 
-(* PROVED, no oracle: the returned angle lies in the bounds and its residual does not exceed the residual at the seed theta_e *)
+(* PROVED, no oracle: the returned angle lies in the bounds and its residual does not exceed the residual at the seed |theta_e| *)
 Theorem snell_nm_bounds_and_residual :
-  0 <= star <= PI / 2 /\ cost star <= cost e.
+  0 <= star <= PI / 2 /\ cost star <= cost (Rabs e).
 Proof.
   unfold star, theta_star, nm, nm_real.
   set (f := bounded_cost snell_lower_gen snell_upper_gen (snell_cost_gen n_along s e)).
@@ -64,14 +64,12 @@ Proof.
   set (sdt := sd snell_tolerance_gen).
   assert (Hf0 : f g0 = CFin (snell_cost_gen n_along s e g0)).
   { unfold f, bounded_cost, g0. rewrite seed_in_range. reflexivity. }
-  (* in bounds *)
   destruct (nm_bounds Rltb Rltb_irrefl Rltb_trans Rltb_cotrans real_ops f sdt
               (in_range snell_lower_gen snell_upper_gen) g0 g1 n) as [Hin Hfin].
   { intros x Hx. unfold f, bounded_cost. rewrite Hx. reflexivity. }
   { left. rewrite Hf0. reflexivity. }
   apply in_range_spec in Hin. unfold snell_lower_gen, snell_upper_gen in Hin.
   split; [exact Hin |].
-  (* monotone *)
   destruct (nm_monotone Rltb Rltb_irrefl Rltb_trans Rltb_cotrans real_ops f sdt g0 g1 n) as (Hc & H0 & _).
   rewrite Hc in H0. unfold nm_result in *.
   set (r := vp (sbest (nm_run Rltb real_ops f sdt g0 g1 n))) in *.
@@ -79,52 +77,53 @@ Proof.
   { unfold f, bounded_cost. replace (in_range snell_lower_gen snell_upper_gen r) with true; [reflexivity |].
     symmetry. apply in_range_spec. exact Hin. }
   rewrite Hfr, Hf0 in H0. unfold ele, elt in H0. apply negb_true_iff in H0.
-  unfold cost. replace e with g0 at 3 by (unfold g0, snell_seed0_gen; apply div1).
+  unfold cost. replace (Rabs e) with g0 by (unfold g0, snell_seed0_gen; rewrite div1; reflexivity).
   destruct (Rlt_dec (snell_cost_gen n_along s e g0) (snell_cost_gen n_along s e r)) as [Hlt | Hge]; [| lra].
   apply Rltb_true in Hlt. rewrite Hlt in H0. discriminate.
 Qed.
 
-(* the residual at the seed: (n(theta_e) - 1) sin theta_e when n >= 1 *)
+(* the residual at the seed: (n(theta_e) - 1) sin|theta_e| when n >= 1 (n along the direction of polar angle theta_e itself) *)
 Lemma residual_at_seed :
   1 <= n_along (normalize (polar_dir (b_phi s) e)) ->
-  cost e = (n_along (normalize (polar_dir (b_phi s) e)) - 1) * sin e.
+  cost (Rabs e) = (n_along (normalize (polar_dir (b_phi s) e)) - 1) * sin (Rabs e).
 Proof.
-  intros Hn. unfold cost, snell_cost_gen. rewrite !div1, !mul1.
+  intros Hn. unfold cost, snell_cost_gen. rewrite !div1, !mul1. rewrite signum_abs.
+  rewrite abs_sin_small by (pose proof PI_RGT_0; lra).
   change (sin e * cos (b_phi s), sin e * sin (b_phi s), cos e) with (polar_dir (b_phi s) e).
   set (n := n_along (normalize (polar_dir (b_phi s) e))) in *.
-  assert (0 <= sin e) by (apply sin_ge_0; pose proof PI_RGT_0; lra).
-  replace (sin e - n * sin e) with (- ((n - 1) * sin e)) by ring. rewrite Rabs_Ropp, Rabs_right; [reflexivity | nra].
+  assert (0 <= sin (Rabs e)) by (apply sin_ge_0; pose proof PI_RGT_0; pose proof (Rabs_pos e); lra).
+  replace (sin (Rabs e) - n * sin (Rabs e)) with (- ((n - 1) * sin (Rabs e))) by ring. rewrite Rabs_Ropp, Rabs_right; [reflexivity | nra].
 Qed.
 End Instance.
 
-(* ---- bracketing: a continuous index >= 1 along the path theta |-> (phi, theta), 0 <= theta <= theta_e, gives a zero of the cost *)
+(* ---- bracketing: a continuous index >= 1 along the path t |-> (phi, sign(theta_e) t), 0 <= t <= |theta_e|, gives a zero of the cost *)
 Theorem snell_root_exists n_along s e :
-  0 <= e <= PI / 2 ->
-  (forall t, 0 <= t <= e -> continuity_pt (fun u => n_along (normalize (polar_dir (b_phi s) u))) t) ->
+  Rabs e <= PI / 2 ->
+  (forall t, 0 <= t <= Rabs e -> continuity_pt (fun u => n_along (normalize (polar_dir (b_phi s) (signum e * u)))) t) ->
   1 <= n_along (normalize (polar_dir (b_phi s) e)) ->
-  exists t, 0 <= t <= e /\ snell_cost_gen n_along s e t = 0.
+  exists t, 0 <= t <= Rabs e /\ snell_cost_gen n_along s e t = 0.
 Proof.
-  intros He Hcont Hn.
-  assert (Hcost : forall t, snell_cost_gen n_along s e t = Rabs (sin e - n_along (normalize (polar_dir (b_phi s) t)) * sin t)).
-  { intros t. unfold snell_cost_gen. rewrite !div1, !mul1. reflexivity. }
-  set (g := fun t => n_along (normalize (polar_dir (b_phi s) t)) * sin t - sin e).
-  assert (Hse : 0 <= sin e) by (apply sin_ge_0; pose proof PI_RGT_0; lra).
-  assert (Hg0 : g 0 = - sin e) by (unfold g; rewrite sin_0; ring).
-  assert (Hge : 0 <= g e).
-  { unfold g. set (n := n_along (normalize (polar_dir (b_phi s) e))) in *. nra. }
+  intros He Hcont Hn. set (a := Rabs e). assert (Ha0 : 0 <= a) by apply Rabs_pos.
+  assert (Hcost : forall t, snell_cost_gen n_along s e t = Rabs (sin a - n_along (normalize (polar_dir (b_phi s) (signum e * t))) * sin t)).
+  { intros t. unfold snell_cost_gen. rewrite !div1, !mul1. rewrite abs_sin_small by (pose proof PI_RGT_0; lra). reflexivity. }
+  set (g := fun t => n_along (normalize (polar_dir (b_phi s) (signum e * t))) * sin t - sin a).
+  assert (Hse : 0 <= sin a) by (apply sin_ge_0; pose proof PI_RGT_0; unfold a in *; lra).
+  assert (Hg0 : g 0 = - sin a) by (unfold g; rewrite sin_0; ring).
+  assert (Hge : 0 <= g a).
+  { unfold g. unfold a at 1. rewrite signum_abs. set (n := n_along (normalize (polar_dir (b_phi s) e))) in *. nra. }
   assert (Hz : forall t, g t = 0 -> snell_cost_gen n_along s e t = 0).
   { intros t Ht. rewrite Hcost. unfold g in Ht.
-    replace (sin e - n_along (normalize (polar_dir (b_phi s) t)) * sin t) with 0 by lra. apply Rabs_R0. }
-  destruct (Req_dec (sin e) 0) as [Hs0 | Hsn].
+    replace (sin a - n_along (normalize (polar_dir (b_phi s) (signum e * t))) * sin t) with 0 by lra. apply Rabs_R0. }
+  destruct (Req_dec (sin a) 0) as [Hs0 | Hsn].
   { exists 0. split; [lra |]. apply Hz. rewrite Hg0. lra. }
-  destruct (Req_dec (g e) 0) as [Hge0 | Hgen].
-  { exists e. split; [lra |]. apply Hz, Hge0. }
-  assert (He0 : 0 < e).
-  { destruct (Req_dec e 0) as [-> | Hne]; [rewrite sin_0 in Hsn; lra | lra]. }
-  destruct (Ranalysis5.IVT_interv g 0 e) as [z [Hz1 Hz2]].
-  - intros a Ha. unfold g. apply continuity_pt_minus.
-    + apply continuity_pt_mult; [apply Hcont; exact Ha | apply continuity_sin].
-    + apply continuity_pt_const. intros x y. reflexivity.
+  destruct (Req_dec (g a) 0) as [Hge0 | Hgen].
+  { exists a. split; [lra |]. apply Hz, Hge0. }
+  assert (He0 : 0 < a).
+  { destruct (Req_dec a 0) as [E | Hne]; [rewrite E, sin_0 in Hsn; lra | lra]. }
+  destruct (Ranalysis5.IVT_interv g 0 a) as [z [Hz1 Hz2]].
+  - intros x Hx. unfold g. apply continuity_pt_minus.
+    + apply continuity_pt_mult; [apply Hcont; exact Hx | apply continuity_sin].
+    + apply continuity_pt_const. intros u v. reflexivity.
   - exact He0.
   - rewrite Hg0. lra.
   - lra.
@@ -133,19 +132,19 @@ Qed.
 
 (* the round-trip theorem with the optimiser modelled: only the residual bound r (convergence) remains a hypothesis *)
 Theorem snell_roundtrip_model sd fuel n_along s e r M :
-  beam_inv s -> 0 <= e <= M -> M < PI / 2 ->
+  beam_inv s -> Rabs e <= M -> M < PI / 2 ->
   snell_cost_gen n_along s e (theta_star (nm_real sd fuel) n_along s e) <= r ->
-  sin e + r <= sin M ->
+  sin (Rabs e) + r <= sin M ->
   let s' := set_theta_external_gen (snell_inv_of (nm_real sd fuel) n_along) s e in
-  0 <= b_theta s' <= PI / 2 /\
-  Rabs (sin e - n_along (normalize (polar_dir (b_phi s) (b_theta s'))) * sin (b_theta s')) <= r /\
+  Rabs (b_theta s') <= PI / 2 /\
+  Rabs (sin (Rabs e) - n_along (normalize (polar_dir (b_phi s) (b_theta s'))) * sin (Rabs (b_theta s'))) <= r /\
   Rabs (theta_external_gen n_along s' - e) <= r / cos M.
 Proof.
   intros Hs He HM Hc HrM s'.
-  assert (He2 : 0 <= e <= PI / 2) by lra.
+  assert (He2 : Rabs e <= PI / 2) by lra.
   destruct (snell_nm_bounds_and_residual sd fuel n_along s e He2) as [Hb _].
-  destruct (after_set_theta_external (nm_real sd fuel) n_along s e M Hs He HM Hb) as [Et Ep].
+  pose proof (abs_theta_after (nm_real sd fuel) n_along s e Hs Hb) as Ea.
   pose proof (stored_angle_satisfies_snell (nm_real sd fuel) n_along s e r M Hs He HM Hb Hc) as H2.
   pose proof (snell_roundtrip (nm_real sd fuel) n_along s e r M Hs He HM Hb Hc HrM) as H3.
-  fold s' in Et, Ep, H2, H3. rewrite Et in H2 |- *. split; [exact Hb | split; [exact H2 | exact H3]].
+  fold s' in Ea, H2, H3. split; [rewrite Ea; lra | split; [exact H2 | exact H3]].
 Qed.
